@@ -149,6 +149,40 @@ fn fees_model(args: &Args) {
 			},
 		}
 	}
+	// PaymentPath::max_final_value_msat on synthetic paths of private-hop candidates (hook verif_hooks::router::max_final_value_msat)
+	for _ in 0..n / 2 {
+		let len = match rng.below(8) { 0 => 1, 1 => 2, 7 => rng.range(9, 19), _ => rng.range(2, 7) } as usize;
+		let value = match rng.below(5) { 0 => rng.range(1, 20), 1 => rng.range(1, 100_000), 2 => rng.range(1, 1 << 40), 3 => 1000 * rng.range(1, 1000), _ => rng.range(1, 1 << 32) };
+		let huge = rng.chance(1, 10);
+		let pow = match rng.below(4) { 0 => rng.below(4), _ => 0 } as u8;
+		let mut hops: Vec<(u32, u32, Option<u64>, u64)> = vec![];
+		for _ in 0..len {
+			let base = match rng.below(6) { 0 | 1 => 0, 2 => rng.below(3), 3 => rng.below(5000), 4 => rng.below(value.min(u32::MAX as u64) / 50 + 1), _ => if huge { pick_u32(&mut rng) } else { rng.below(100_000) } };
+			let prop = match rng.below(6) { 0 => 0, 1 => rng.below(3), 2 => rng.below(5000), 3 => rng.below(1_000_001), 4 => rng.range(1_000_000, 5_000_000), _ => if huge { pick_u32(&mut rng) } else { rng.below(200_000) } };
+			let max = match rng.below(8) { 0 | 1 => None, 2 => Some(near(&mut rng, value)), 3 => Some(rng.range(value / 2 + 1, 2 * value + 1)), 4 => Some(rng.below(20)), 5 | 6 => Some(value.saturating_mul(rng.range(2, 100)).saturating_add(200_000)), _ => Some(if huge { rng.next() } else { rng.range(1 << 20, 1 << 40) }) };
+			let used = match rng.below(6) { 0 => max.map_or(0, |m| rng.below(m / 2 + 2)), 1 => rng.below(value / 4 + 1), _ => 0 };
+			hops.push((base as u32, prop as u32, max, used));
+		}
+		let r = guarded(AssertUnwindSafe(|| vr::max_final_value_msat(&hops, pow)));
+		let op = format!("maxfinal {} {}{}", pow, len, hops.iter().map(|h| format!(" {} {} {} {}", h.0, h.1, h.2.map_or("-".to_string(), |m| m.to_string()), h.3)).collect::<String>());
+		match r {
+			Err(_) => rec.case(&op, "panic", "maxfinal:panic(debug_assert false: aggregated base fee above the hop maximum)", true),
+			Ok(Err(i)) => rec.case(&op, &format!("err {}", i), "maxfinal:err(aggregated fees overflow)", true),
+			Ok(Ok((i, v))) => {
+				// impl-side measurement (no model): with the fees charged hop by hop, does `v` fit under every hop's remaining maximum?
+				let mut class = "maxfinal:ok";
+				if v > 0 && v < u64::MAX / 4 {
+					let mut amts = vec![0u128; len]; let mut acc = v as u128; let mut overflow = false;
+					for k in (0..len).rev() { amts[k] = acc; if k > 0 { let prod = acc * hops[k].1 as u128; if prod > u64::MAX as u128 { overflow = true; break; } acc += hops[k].0 as u128 + prod / 1_000_000; } }
+					if !overflow {
+						for k in 0..len { let room = hops[k].2.unwrap_or(u64::MAX).saturating_sub(hops[k].3) as u128; if amts[k] > room { class = "maxfinal:ok/hop-by-hop amount above a hop maximum (aggregated-fee rounding)"; } }
+						if i < len && class == "maxfinal:ok" { class = "maxfinal:ok/fits-hop-by-hop"; }
+					}
+				}
+				rec.case(&op, &format!("ok {} {}", i, v), class, true);
+			},
+		}
+	}
 	rec.notes.insert("rule".into(), "PRNG tuples around the u64 product/sum overflow boundaries of compute_fees (+ saturating variant), all EffectiveCapacity kinds with shifts 0..255, and synthetic hop lists (1..20 hops; zero/huge fees; minimums around the value) through the real update_value_and_recompute_fees; every case distinct by op text.; impl-side oracle: minimums and policy-fee margins on every output, also after a final-hop raise (KF-C16-1 was repaired in /repo 2ea5edc)".into());
 	rec.finish();
 }
@@ -168,6 +202,10 @@ impl Kind {
 const FLAG_FIRST_HOP_BYPASS: bool = false;
 /// Candidate finding "max_path_count exceeded after the contribution was rounded down" (see `record`): `true` makes it a failure.
 const FLAG_PATH_COUNT_ROUNDING: bool = false;
+/// Candidate finding "blinded path at a first-hop peer stitched to a longer continuation" (see `record`): `true` makes it a failure.
+const FLAG_BLINDED_INTRO_STITCH: bool = false;
+/// Candidate finding "merging identical paths rounds the fee up past a limit" (see `record`): `true` makes it a failure.
+const FLAG_MERGE_ROUNDING: bool = false;
 /// virtual node index of the payee of a blinded request
 const BLINDED_PAYEE: usize = 999;
 /// One candidate the router may use, with the RAW data (ChannelUpdateInfo / ChannelDetails / RouteHintHop / BlindedPayInfo).
@@ -285,11 +323,11 @@ fn recheck(g: &[Chan], q: &Req, r: &[Vec<Hop>]) -> Result<(), (&'static str, Str
 		// joint use of the candidate: all hops that RESOLVE to it (a first-hop channel named by its alias in one path and by its real scid in another is one channel)
 		let u: u128 = uses.iter().filter(|u| u.0.map_or(false, |i| i == ci || g[i] == *c)).map(|u| u.1).sum();
 		if u > c.limit() as u128 {
-			return Err(("capacity", match c.kind {
+			return Err(("capacity", format!("excess={} ", u - c.limit() as u128) + &match c.kind {
 				Kind::Pub => format!("channel {} {}->{} carries {} msat jointly > min(htlc_maximum {}, capacity {:?})", c.scid, c.src, c.dst, u, c.hmax, c.cap),
 				Kind::First => format!("first-hop channel (outbound scid {} / real scid {:?}) {}->{} carries {} msat jointly > next_outbound_htlc_limit_msat {}", c.scid, c.alt, c.src, c.dst, u, c.hmax),
 				_ => format!("{:?} candidate {} {}->{} carries {} msat jointly > htlc_maximum {}", c.kind, c.scid, c.src, c.dst, u, c.limit()),
-			}));
+			}[..]));
 		}
 	}
 	if (q.amt as u128) > delivered { return Err(("amount", format!("delivers {} < requested {}", delivered, q.amt))); }
@@ -532,7 +570,7 @@ fn ample_path_ext(g: &[Chan], q: &Req, n_nodes: usize, mult: u128, all: bool) ->
 	Some(path)
 }
 
-struct Stats { n_ok: u64, n_err: u64, n_panic: u64, n_multi: u64, n_raise: u64, n_first: u64, n_hint: u64, n_blinded: u64, n_alias_real: u64, n_probe: u64, n_bypass: u64, bypass_example: String, n_all_ample: u64, n_count_rounding: u64, count_rounding_example: String,
+struct Stats { n_ok: u64, n_err: u64, n_panic: u64, n_multi: u64, n_raise: u64, n_first: u64, n_hint: u64, n_blinded: u64, n_alias_real: u64, n_probe: u64, n_bypass: u64, bypass_example: String, n_all_ample: u64, n_count_rounding: u64, count_rounding_example: String, n_stitch: u64, stitch_example: String, n_merge: u64, merge_example: String,
 	debug_asserts: std::collections::BTreeMap<String, (u64, String)> }
 
 /// classify and record one find_route outcome (`ext`: an extended request — first hops / hints / blinded tails / fed scorer)
@@ -557,6 +595,17 @@ fn record(rec: &mut Rec, st: &mut Stats, w: &World, g: &[Chan], gs: &str, q: &Re
 				e.0 += 1;
 				if e.1.is_empty() { e.1 = format!("noroute {} {}", req_str(q), gs); }
 				*rec.classes.entry("find_route:own-debug-assert(discarded)".into()).or_insert(0) += 1;
+			} else if ext && !FLAG_BLINDED_INTRO_STITCH && (p1.contains("Path had a length of") || p1.contains("*used_liquidity_msat <= hop_max_msat")) && g.iter().any(|b| b.kind.is_blinded() && g.iter().any(|f| f.kind == Kind::First && f.dst == b.src)) {
+				// CANDIDATE FINDING (reported to the integrator, see the run notes): a blinded path whose introduction node is one of our first-hop
+				// peers gets its FirstHop entries added at once (`blind_intros_added`, path length 1, the blinded path's fee and CLTV), before
+				// that peer is processed; when the peer later gets a cheaper continuation (a graph channel towards ANOTHER blinded path's
+				// introduction node) its `dist` entry is overwritten and the payer's entry is stitched to it: the route is longer than what
+				// the limits were checked against. Route::debug_assert_route_meets_params (a debug assertion with `_test_utils`, an error log
+				// otherwise) reports max_path_length exceeded; or the stitched path trips get_route's own `debug_assert!(*used_liquidity_msat <=
+				// hop_max_msat)` (the first hop's value was sized for the blinded path it was created for).
+				rec.discarded += 1; st.n_stitch += 1;
+				if st.stitch_example.is_empty() { st.stitch_example = format!("{} | noroute {} {}", p1, req_str(q), gs); }
+				*rec.classes.entry("find_route:CANDIDATE-FINDING(max_path_length exceeded: blinded path at a first-hop peer stitched to a longer continuation; blinded requests only)".into()).or_insert(0) += 1;
 			} else if ext && !FLAG_PATH_COUNT_ROUNDING && p1.contains("paths.len() <= payment_params.max_path_count") && g.iter().any(|c| edge_allowed(g, q, c) && (c.fee_base() > 0 || c.fee_prop() > 0)) {
 				// CANDIDATE FINDING (reported to the integrator, see the run notes): with non-zero fees after a hop, PaymentPath::max_final_value_msat
 				// rounds the path's contribution DOWN below what add_entry! admitted (e.g. hop maximum 5, fees base 1 + 1 ppm: ⌊4000001/1000001⌋ = 3,
@@ -590,6 +639,14 @@ fn record(rec: &mut Rec, st: &mut Stats, w: &World, g: &[Chan], gs: &str, q: &Re
 					bypass = true; st.n_bypass += 1;
 					if st.bypass_example.is_empty() { st.bypass_example = format!("{} | {}", detail, op); }
 					format!("invalid {}", clause) },
+				// CANDIDATE FINDING (reported to the integrator, see the run notes): get_route step (8) merges paths over identical hops and
+				// recomputes the fees on the SUM; ⌊(a+b)·p⌋ may exceed ⌊a·p⌋ + ⌊b·p⌋ by a msat per proportional hop, and the merged path then
+				// carries that much more than a limit the two parts respected (e.g. limit 2, two parts of 1 msat with a 91.8 % hop: 1+0 each,
+				// merged 2+1 = 3). Only an excess of at most 2 msat on an MPP request is classified this way.
+				Err((clause, detail)) if ext && !FLAG_MERGE_ROUNDING && clause == "capacity" && q.mpp && q.maxpaths > 1 && (detail.starts_with("excess=1 ") || detail.starts_with("excess=2 ")) => {
+					bypass = true; st.n_merge += 1;
+					if st.merge_example.is_empty() { st.merge_example = format!("{} | {}", detail, op); }
+					format!("invalid {}", clause) },
 				Err((clause, detail)) => {
 					let tag = if clause == "chain" && detail.contains("is paid") && final_raise_signature(g, q, &r, &detail) { "KF-C16-1 final-hop raised to htlc_minimum, upstream fee computed without the raise: " }
 						else if clause == "capacity" && r.iter().enumerate().any(|(i, _)| final_raise_signature(g, q, &r, &format!("path {} ", i))) { "KF-C16-6 htlc_maximum exceeded after raises to htlc_minimum (final-hop raise not propagated upstream, no re-check): " } else { "" };
@@ -606,7 +663,8 @@ fn record(rec: &mut Rec, st: &mut Stats, w: &World, g: &[Chan], gs: &str, q: &Re
 			let over = r.iter().map(|p| p.last().unwrap().fee as u128).sum::<u128>() > q.amt as u128;
 			let class = format!("route:{}{}{}{}{}{}{}", if r.len() > 1 { "mpp" } else { "single" }, match r.iter().map(|p| p.iter().filter(|h| !h.blinded).count()).max().unwrap_or(0) { 1 => "/direct", 2 | 3 => "/2-3hops", _ => "/4+hops" }, if raised { "/at-minimum" } else { "" }, if over { "/overpays" } else { "" },
 				if first { "/first-hop" } else { "" }, if hint { "/hint" } else { "" }, if blinded { "/blinded-tail" } else { "" });
-			let class = if bypass { "route:CANDIDATE-FINDING(hint naming a graph channel / sourced at the payer bypasses first_hops or `enabled`; probe requests only)".to_string() } else { class };
+			let class = if bypass && verdict == "invalid capacity" { "route:CANDIDATE-FINDING(limit exceeded by 1-2 msat after identical paths were merged and the fee recomputed on the sum; extended MPP requests only)".to_string() }
+				else if bypass { "route:CANDIDATE-FINDING(hint naming a graph channel / sourced at the payer bypasses first_hops or `enabled`; probe requests only)".to_string() } else { class };
 			rec.case(&op, &format!("{} recur={}", verdict, recur_claim(g, q, &r)), &class, true);
 			if ext {
 				// how often the completeness oracle of extended requests is armed (a route found while it is armed = it held)
@@ -652,7 +710,7 @@ fn channel_details(peer: PublicKey, scid: Option<u64>, alias: Option<u64>, limit
 		counterparty: ChannelCounterparty { features: InitFeatures::empty(), node_id: peer, unspendable_punishment_reserve: 0, forwarding_info: None, outbound_htlc_minimum_msat: None, outbound_htlc_maximum_msat: None },
 		funding_txo: None, funding_redeem_script: None, channel_type: None,
 		short_channel_id: scid, outbound_scid_alias: alias, inbound_scid_alias: None,
-		channel_value_satoshis: limit / 1000 + 1, user_channel_id: 0, outbound_capacity_msat: limit,
+		channel_value_satoshis: limit / 500 + 8, user_channel_id: 0, outbound_capacity_msat: limit.saturating_mul(2).saturating_add(7),
 		next_outbound_htlc_limit_msat: limit, next_outbound_htlc_minimum_msat: min, next_splice_out_maximum_sat: limit / 1000,
 		inbound_capacity_msat: 42, unspendable_punishment_reserve: None, confirmations_required: None, confirmations: None,
 		force_close_spend_delay: None, is_outbound: true, is_channel_ready: true, is_usable: true, is_announced: announced,
@@ -802,9 +860,14 @@ fn ext_request(rng: &mut Rng, w: &World, secp: &Secp256k1<bitcoin::secp256k1::Al
 				let dst = if i + 1 < chain.len() { chain[i + 1] } else { payee };
 				hk += 1;
 				let naming_own = i == 0 && own_pick.is_some();
-				// a hint may name a channel of the graph — but (outside probes) not one of the payer's own public channels (see `record`)
+				// a hint may name a channel of the graph that leads to the hint's target (it becomes a PublicHop candidate) — but (outside
+				// probes) not one of the payer's own public channels nor a disabled one (see `record`); a hint that merely REUSES the scid of
+				// an unrelated public channel is not generated: the router's CandidateHopId (scid, direction) then conflates the private hop
+				// and the public channel in `used_liquidities` and trips its own `debug_assert!(*used_liquidity_msat <= hop_max_msat)`
+				// (observed on the unchanged tree; over-counting only, not a C16 clause)
+				let to_dst: Vec<u64> = g0.iter().filter(|c| c.dst == dst && two_way(g0, c)).map(|c| c.scid).collect();
 				let scid = if naming_own { let o = own_pick.unwrap(); match o.2 { Some(real) if rng.chance(1, 2) => real, _ => o.1 } }
-					else if rng.chance(1, 10) && !g0.is_empty() { let c = rng.pick(g0); let s = c.scid; if own.iter().any(|o| o.1 == s || o.2 == Some(s)) || g0.iter().any(|d| d.scid == s && (!d.enabled || (has_first && (d.src == payer || d.dst == payer)))) { 3_000_000 + hk } else { s } } else { 3_000_000 + hk };
+					else if rng.chance(1, 10) && !to_dst.is_empty() { let s = *rng.pick(&to_dst); if own.iter().any(|o| o.1 == s || o.2 == Some(s)) || g0.iter().any(|d| d.scid == s && (!d.enabled || (has_first && (d.src == payer || d.dst == payer)))) { 3_000_000 + hk } else { s } } else { 3_000_000 + hk };
 				let base = match rng.below(5) { 0 => 0, 1 => 1000, 2 => rng.below(5000), 3 => rng.below(amt.min(u32::MAX as u64) / 20 + 1), _ => 1 };
 				let prop = match rng.below(5) { 0 => 0, 1 => 100, 2 => rng.below(5000), 3 => rng.below(200_000), _ => 1 };
 				let cltv = match rng.below(4) { 0 => 0, 1 => 40, 2 => rng.below(300), _ => 144 };
@@ -856,7 +919,7 @@ fn router_model(args: &Args) {
 	let n_graphs = if args.thorough { 8000 } else { 1500 } * args.scale;
 	let per_graph = if args.thorough { 14 } else { 10 };
 	let per_graph_ext = if args.thorough { 12 } else { 8 };
-	let mut st = Stats { n_ok: 0, n_err: 0, n_panic: 0, n_multi: 0, n_raise: 0, n_first: 0, n_hint: 0, n_blinded: 0, n_alias_real: 0, n_probe: 0, n_bypass: 0, bypass_example: String::new(), n_all_ample: 0, n_count_rounding: 0, count_rounding_example: String::new(), debug_asserts: std::collections::BTreeMap::new() };
+	let mut st = Stats { n_ok: 0, n_err: 0, n_panic: 0, n_multi: 0, n_raise: 0, n_first: 0, n_hint: 0, n_blinded: 0, n_alias_real: 0, n_probe: 0, n_bypass: 0, bypass_example: String::new(), n_all_ample: 0, n_count_rounding: 0, count_rounding_example: String::new(), n_stitch: 0, stitch_example: String::new(), n_merge: 0, merge_example: String::new(), debug_asserts: std::collections::BTreeMap::new() };
 	let (mut n_ext, mut n_fed, mut n_inflight) = (0u64, 0u64, 0u64);
 	// the generated `matches_an_scid` (get_route step (1)) against the property's reading: a hint names our channel by alias OR real scid
 	for _ in 0..if args.thorough { 2000 } else { 300 } {
@@ -961,8 +1024,8 @@ fn router_model(args: &Args) {
 			}
 		}
 	}
-	rec.notes.insert("rule".into(), format!("random NetworkGraphs (4–40 nodes, parallel channels, unknown/known capacities via UTXO stub or partial announcement, zero/extreme fees, disabled directions, missing updates, htlc min/max around the amount), {} plain requests each (amount 1 msat … beyond capacity; max fee / CLTV / path count / path length / saturation / excluded channels varied; ProbabilisticScorer or fixed penalty) + {} EXTENDED requests each ({} in total: first_hops = 1–3 peers x 1–3 ChannelDetails with outbound alias != real scid (some announced channels of the graph), limits/minimums around the amount; 0–3 route hints of 1–3 hops incl. hints naming one of OUR channels by alias or by real scid; or 1–3 blinded tails (raw payinfo or a real BlindedPaymentPath::new, one-hop paths, introduction node = payer / a first-hop peer / any node); excluded channels and blinded-path indices; {} with a ProbabilisticScorer fed with successes/failures of earlier routes, {} with InFlightHtlcs of earlier routes); graph dumped from NetworkGraph::read_only(); every case distinct by op text. routes={} (mpp {} / with a hop at its minimum {} / through a first hop {} (named by the real scid {}) / through a hint hop {} / with a blinded tail {}), router errors={}, panics={}; the completeness oracle of extended requests (a single path through first hops / hints / blinded paths exists and EVERY candidate is ample) was armed on {} requests that returned a route (and is a failure with the request as input when the router returns an error). CANDIDATE FINDING (route hints bypass the graph walk's filters): {} probe requests carry a route hint (A) whose source is the payer over a channel that is not ours, (B) whose scid is a public channel of the payer missing from first_hops, or (C) whose scid is a public channel whose direction towards the hint's target is disabled; on {} of them find_route returned a route whose FIRST hop is that hint / graph channel although first_hops was supplied (A, B) or that uses the disabled direction (C) (last_hop_candidates are not filtered by `first_hops.is_none() || source != our_node_id` / `direction().enabled`); both checkers answer `invalid chain`; not counted as a failure until the integrator decides (FLAG_FIRST_HOP_BYPASS); the main generator avoids these two hint shapes. Example: {}. CANDIDATE FINDING (max_path_count): on {} extended requests find_route hit `assertion failed: paths.len() <= payment_params.max_path_count` (a route with too many paths in a release build): PaymentPath::max_final_value_msat rounds a path's contribution below minimal_value_contribution_msat when fees follow the limiting hop; counted as discarded, not as a failure, until the integrator decides (FLAG_PATH_COUNT_ROUNDING). Example: {}",
-		per_graph, per_graph_ext, n_ext, n_fed, n_inflight, st.n_ok, st.n_multi, st.n_raise, st.n_first, st.n_alias_real, st.n_hint, st.n_blinded, st.n_err, st.n_panic, st.n_all_ample, st.n_probe, st.n_bypass, if st.bypass_example.len() > 2500 { &st.bypass_example[..2500] } else { &st.bypass_example[..] }, st.n_count_rounding, if st.count_rounding_example.len() > 2500 { &st.count_rounding_example[..2500] } else { &st.count_rounding_example[..] }));
+	rec.notes.insert("rule".into(), format!("random NetworkGraphs (4–40 nodes, parallel channels, unknown/known capacities via UTXO stub or partial announcement, zero/extreme fees, disabled directions, missing updates, htlc min/max around the amount), {} plain requests each (amount 1 msat … beyond capacity; max fee / CLTV / path count / path length / saturation / excluded channels varied; ProbabilisticScorer or fixed penalty) + {} EXTENDED requests each ({} in total: first_hops = 1–3 peers x 1–3 ChannelDetails with outbound alias != real scid (some announced channels of the graph), limits/minimums around the amount; 0–3 route hints of 1–3 hops incl. hints naming one of OUR channels by alias or by real scid; or 1–3 blinded tails (raw payinfo or a real BlindedPaymentPath::new, one-hop paths, introduction node = payer / a first-hop peer / any node); excluded channels and blinded-path indices; {} with a ProbabilisticScorer fed with successes/failures of earlier routes, {} with InFlightHtlcs of earlier routes); graph dumped from NetworkGraph::read_only(); every case distinct by op text. routes={} (mpp {} / with a hop at its minimum {} / through a first hop {} (named by the real scid {}) / through a hint hop {} / with a blinded tail {}), router errors={}, panics={}; the completeness oracle of extended requests (a single path through first hops / hints / blinded paths exists and EVERY candidate is ample) was armed on {} requests that returned a route (and is a failure with the request as input when the router returns an error). CANDIDATE FINDING (route hints bypass the graph walk's filters): {} probe requests carry a route hint (A) whose source is the payer over a channel that is not ours, (B) whose scid is a public channel of the payer missing from first_hops, or (C) whose scid is a public channel whose direction towards the hint's target is disabled; on {} of them find_route returned a route whose FIRST hop is that hint / graph channel although first_hops was supplied (A, B) or that uses the disabled direction (C) (last_hop_candidates are not filtered by `first_hops.is_none() || source != our_node_id` / `direction().enabled`); both checkers answer `invalid chain`; not counted as a failure until the integrator decides (FLAG_FIRST_HOP_BYPASS); the main generator avoids these two hint shapes. Example: {}. CANDIDATE FINDING (max_path_count): on {} extended requests find_route hit `assertion failed: paths.len() <= payment_params.max_path_count` (a route with too many paths in a release build): PaymentPath::max_final_value_msat rounds a path's contribution below minimal_value_contribution_msat when fees follow the limiting hop; counted as discarded, not as a failure, until the integrator decides (FLAG_PATH_COUNT_ROUNDING). Example: {}. CANDIDATE FINDING (max_path_length): on {} blinded requests with a blinded path whose introduction node is a first-hop peer, Route::debug_assert_route_meets_params reported `Path had a length of N+k, which is greater than the maximum we're allowed (N)` (or get_route's `debug_assert!(*used_liquidity_msat <= hop_max_msat)` fired on the stitched path): the FirstHop entries added by `blind_intros_added` are stitched to a longer continuation found later for that peer; counted as discarded until the integrator decides (FLAG_BLINDED_INTRO_STITCH). Example: {}. CANDIDATE FINDING (merge rounding): on {} extended MPP requests a candidate's limit was exceeded by 1–2 msat: get_route step (8) merges paths over identical hops and recomputes the fees on the sum, which can round a proportional fee up by a msat; both checkers answer `invalid capacity`; not a failure until the integrator decides (FLAG_MERGE_ROUNDING). Example: {}",
+		per_graph, per_graph_ext, n_ext, n_fed, n_inflight, st.n_ok, st.n_multi, st.n_raise, st.n_first, st.n_alias_real, st.n_hint, st.n_blinded, st.n_err, st.n_panic, st.n_all_ample, st.n_probe, st.n_bypass, if st.bypass_example.len() > 2500 { &st.bypass_example[..2500] } else { &st.bypass_example[..] }, st.n_count_rounding, if st.count_rounding_example.len() > 2500 { &st.count_rounding_example[..2500] } else { &st.count_rounding_example[..] }, st.n_stitch, if st.stitch_example.len() > 2500 { &st.stitch_example[..2500] } else { &st.stitch_example[..] }, st.n_merge, if st.merge_example.len() > 2500 { &st.merge_example[..2500] } else { &st.merge_example[..] }));
 	for (i, (k, (n, ex))) in st.debug_asserts.iter().enumerate() {
 		rec.notes.insert(format!("debug_assert_{}", i + 1), format!("find_route hit its own debug assertion: {}, {} times (discarded, not a C16 clause); example input: {}", k, n, if ex.len() > 1500 { &ex[..1500] } else { &ex[..] }));
 	}
